@@ -133,7 +133,7 @@ static void iniExecution(Rng& rng, Log& log, const TmpDir& tmp, bool avoidLast)
 	std::set<std::pair<std::string, std::string> > qs;
 	for (size_t i = 0; i < queries.size(); i++)
 		if (qs.insert(std::make_pair(queries[i].sec, queries[i].key)).second) q.push_back(queries[i]);
-	int how = rng.below(3);
+	int how = rng.below(4);
 	std::string path = tmp.path + "/rec.ini";
 	IniResult r = runIni(path, text, sets, q, how);
 	unlink(path.c_str());
